@@ -71,7 +71,7 @@ impl Check for C02 {
     }
     fn runs(&self, tier: Tier) -> u64 {
         match tier {
-            Tier::Quick => 400_000,
+            Tier::Quick => 1_000_000,
             Tier::Thorough => 20_000_000,
         }
     }
